@@ -34,7 +34,7 @@ pub struct PropDef {
     /// hang of the worker is a violation; otherwise it is reported as undecided)
     pub totality: bool,
     /// verdict over the merged per-worker `extra` records (aggregate properties)
-    pub aggregate: Option<fn(&std::collections::BTreeMap<String, Vec<Value>>, &crate::engine::RunCfg) -> Vec<(Failure, Value)>>,
+    pub aggregate: Option<fn(&std::collections::BTreeMap<String, Vec<Value>>, &crate::engine::RunCfg) -> (Vec<(Failure, Value)>, Value)>,
 }
 
 pub fn all() -> Vec<&'static PropDef> {
